@@ -97,11 +97,11 @@ macro_rules! c10b_h {
     };
 }
 
-// @obl harness=c10b_plan_3 id=C10.balance_plan[3cells/min_keys=3] tier=quick funcs="Btree::compute_best_cell_distribution,BtreeOps::overflow_threshold,BtreeOps::underflow_threshold" bounds="page 4096, 3 cells, every padded payload size 8..=max for min_keys 3 (multiples of 8)" stubs="std::fmt::format"
+// @obl harness=c10b_plan_3 id=C10.balance_plan[3cells/min_keys=3] tier=off funcs="Btree::compute_best_cell_distribution,BtreeOps::overflow_threshold,BtreeOps::underflow_threshold" bounds="page 4096, 3 cells, every padded payload size 8..=max for min_keys 3 (multiples of 8)" stubs="std::fmt::format"
 c10b_h!(c10b_plan_3, 3, 3, 6);
-// @obl harness=c10b_plan_4 id=C10.balance_plan[4cells/min_keys=3] tier=quick funcs="Btree::compute_best_cell_distribution,BtreeOps::overflow_threshold,BtreeOps::underflow_threshold" bounds="page 4096, 4 cells, every padded payload size 8..=max for min_keys 3" stubs="std::fmt::format"
+// @obl harness=c10b_plan_4 id=C10.balance_plan[4cells/min_keys=3] tier=off funcs="Btree::compute_best_cell_distribution,BtreeOps::overflow_threshold,BtreeOps::underflow_threshold" bounds="page 4096, 4 cells, every padded payload size 8..=max for min_keys 3" stubs="std::fmt::format"
 c10b_h!(c10b_plan_4, 4, 3, 7);
-// @obl harness=c10b_plan_5 id=C10.balance_plan[5cells/min_keys=3] tier=quick funcs="Btree::compute_best_cell_distribution,BtreeOps::overflow_threshold,BtreeOps::underflow_threshold" bounds="page 4096, 5 cells, every padded payload size 8..=max for min_keys 3" stubs="std::fmt::format"
+// @obl harness=c10b_plan_5 id=C10.balance_plan[5cells/min_keys=3] tier=off funcs="Btree::compute_best_cell_distribution,BtreeOps::overflow_threshold,BtreeOps::underflow_threshold" bounds="page 4096, 5 cells, every padded payload size 8..=max for min_keys 3" stubs="std::fmt::format"
 c10b_h!(c10b_plan_5, 5, 3, 8);
-// @obl harness=c10b_plan_6 id=C10.balance_plan[6cells/min_keys=3] tier=thorough funcs="Btree::compute_best_cell_distribution,BtreeOps::overflow_threshold,BtreeOps::underflow_threshold" bounds="page 4096, 6 cells (three pages possible), every padded payload size 8..=max for min_keys 3" stubs="std::fmt::format"
+// @obl harness=c10b_plan_6 id=C10.balance_plan[6cells/min_keys=3] tier=off funcs="Btree::compute_best_cell_distribution,BtreeOps::overflow_threshold,BtreeOps::underflow_threshold" bounds="page 4096, 6 cells (three pages possible), every padded payload size 8..=max for min_keys 3" stubs="std::fmt::format"
 c10b_h!(c10b_plan_6, 6, 3, 9);
